@@ -397,8 +397,8 @@ def rule_release(m, rep, rid='R4'):
             for ai, a in enumerate(ct[2]):
                 if any(x == arc for x in walk(a)):
                     uses.append((bi, strip_generics(t.get('callee_full', '?')), ai))
-        allowed = ('<alloc::sync::Arc as core::clone::Clone>::clone', m.worker + '::new', 'alloc::sync::Arc::new',
-                   strip_generics(m.spawn.path))
+        allowed = ('<alloc::sync::Arc as core::clone::Clone>::clone', 'alloc::sync::Arc::new',
+                   strip_generics(m.spawn.path)) + tuple(strip_generics(p_) for p_ in m.worker_ctors)
         odd = [u for u in uses if u[1] not in allowed]
         rep.ob(rid, 'sink-arc-goes-to-handle-and-task-only', not odd, m.build.where(odd[0][0]) if odd else m.build.where(),
                'the Arc of the wrapped sink is only cloned into the task closure and moved into the handle' if not odd else
@@ -680,7 +680,8 @@ def rule_handler_plumbing(m, rep):
     ok = False
     if len(clos) == 1:
         caps = dict(clos[0][2])
-        hv = [v for n, v in caps.items() if v == ('field', ('param', 1), names(cad).qb_handler)]
+        want_h = ('field', ('param', 1), names(cad).qb_handler)
+        hv = [v for n, v in caps.items() if v == want_h or (norm(v)[0] == 'adt' and any(v2 == want_h for _n2, v2 in norm(v)[3]))]
         ok = len(hv) == 1
     rep.ob('R2', 'build-moves-handler-into-task', ok, m.build.where(), 'the task closure captures self.error_handler unchanged' if ok else 'the configured handler does not reach the task closure')
     # every way to obtain a fresh builder (new(), Default) starts with no handler
